@@ -71,7 +71,10 @@ def variants_of(ctx, base, k):
     if kind == "gen":
         return G.surface_variants(payload, ctx.seed * 100003 + k, n_mixed=2 if ctx.tier == "quick" else 6)
     src = read(payload)
-    return [("original", src)] + G.layout_variants(src, ctx.seed * 100003 + k)
+    out = [("original", src)]
+    for rnd in range(1 if ctx.tier == "quick" else 4):
+        out += G.layout_variants(src, ctx.seed * 100003 + k + 7919 * rnd)
+    return out
 
 
 def compile_case(main, text, flags):
